@@ -3,9 +3,10 @@
 import json, os, shutil, sys, re
 pid, n, det, checks, note = sys.argv[1], sys.argv[2], sys.argv[3], sys.argv[4], sys.argv[5]
 src = "/tmp/seedwork/%s" % pid
-round2 = pid.endswith("b")
+rnd = {"b": 2, "c": 3}.get(pid[-1], 1)
+round2 = rnd > 1
 prop = pid[:-1] if round2 else pid
-dst = "/verif/seeded/%s-%s" % (prop, int(n) + 2 if round2 else n)
+dst = "/verif/seeded/%s-%s" % (prop, int(n) + 2 * (rnd - 1))
 os.makedirs(dst, exist_ok=True)
 shutil.copy(src + "/change%s.diff" % n, dst + "/patch.diff")
 shutil.copy(src + "/demo%s.py" % n, dst + "/demo.py")
@@ -16,7 +17,7 @@ files = sorted(set(re.findall(r"^\+\+\+ b/(\S+)", diff, re.M)))
 meta = {
     "property": prop,
     "origin": "independent sub-agent given only the property text and a scratch worktree of /repo (no access to /verif)"
-              + ("; second round: told which two mechanisms had been used before and asked for caches / shared state / ordering assumptions / save-re-open effects / cooperating sites" if round2 else ""),
+              + (("; round %d: told which mechanisms had been used before and asked for different ones (caches / shared state / ordering assumptions / save-re-open effects / cooperating sites / exception safety / in-place mutation / boundary arithmetic)" % rnd) if round2 else ""),
     "files_changed": files,
     "needs_to_manifest": "see notes.md (section for change %s)" % n,
     "confirmed_by_me": {
